@@ -306,7 +306,7 @@ def compare(a, b, keys=("status", "opened", "mods", "inits", "conf")):
 def case_record(rec):
     c = dict(rec["case"])
     c["probes"] = rec["probes"]
-    return {"case": c, "enumeration": rec["names"], "entries": rec["entries"], "chain": rec["chain"], "who": list(rec["who"])}
+    return {"case": c, "enumeration": rec["names"], "entries": rec["entries"], "chain": rec["chain"], "who": list(rec["who"]), "raw": rec["obs"].get("raw")}
 
 
 def judge(ctx, rec, stats):
@@ -314,6 +314,10 @@ def judge(ctx, rec, stats):
     case, obs, mobs = rec["case"], rec["obs"], rec["mobs"]
     spec = s_spec(rec["who"], rec["pers"], rec["base"], case["forced"], rec["chain"], rec["entries"], rec["mods"])
     rec["spec"] = spec
+    # dlopen of something that is not a shared object maps no code: only module files leave a trace
+    spec["opened"] = [nm for nm in spec["opened"] if rec["mods"].get(nm) is not None]
+    if "opened" in mobs:
+        mobs["opened"] = [nm for nm in mobs["opened"] if rec["mods"].get(nm) is not None]
     n = 0
     cr = case_record(rec)
     # the privileged-directory rule: code of the directory that must NOT be used has not run
@@ -386,8 +390,9 @@ def run_cases(ctx, eng, model, cases, stats):
     def probe(r):
         m = r["mobs"]
         if r["probes"]:
-            witharg = {chr(c): a for _, c, a in m.get("regs", [])}
-            r["obs"]["disp"] = eng.observe_disp(r["case"], r["D"], [(c, bool(witharg.get(c, 0))) for c in r["probes"]], r["obs"]["status"])
+            ostr = m.get("opts", "")                 # getopt looks at the first occurrence of the letter in the option string
+            r["obs"]["disp"] = eng.observe_disp(r["case"], r["D"], [(c, (c in ostr and ostr[ostr.index(c) + 1:ostr.index(c) + 2] == ":")) for c in r["probes"]],
+                                                r["obs"]["status"])
         eng.cleanup_case(r["croot"])
         return r
     with ThreadPoolExecutor(vlib.NPROC) as ex:
